@@ -4,6 +4,7 @@ package weshnet
 
 import (
 	"fmt"
+	"google.golang.org/protobuf/encoding/protowire"
 	"math"
 	"sort"
 	"strings"
@@ -161,6 +162,15 @@ func forgeries(seed int64, g *protocoltypes.Group, gsk crypto.PrivKey, et protoc
 			p3, _ := proto.Marshal(m3)
 			add("member-field-substituted-after-signing", et, p3, goodSig)
 		}
+	}
+	// payload bytes altered after signing in a way that decodes to the SAME message: the signed bytes preceded by an
+	// extra occurrence of the signer field naming another key (for a repeated scalar field the last occurrence wins).
+	// The signature is over the bytes that were delivered, so this is a forgery.
+	if m := msg.ProtoReflect(); m.Descriptor().Fields().ByName("device_pk") != nil {
+		fd := m.Descriptor().Fields().ByName("device_pk")
+		prefix := protowire.AppendTag(nil, fd.Number(), protowire.BytesType)
+		prefix = protowire.AppendBytes(prefix, other.dev)
+		add("payload-prefixed-with-overridden-signer-field", et, append(prefix, payload...), goodSig)
 	}
 	if et == protocoltypes.EventType_EventTypeGroupMemberDeviceAdded {
 		// member signature over another device key, device signature valid
